@@ -1,3 +1,200 @@
-//! C01 — not built yet.
-use crate::run::Run;
-pub fn run(_run: &Run) { eprintln!("C01: check not built yet"); std::process::exit(2); }
+//! C01 — reading arbitrary bytes never panics, aborts or hangs (every case in a child process).
+use crate::corpus::{invalid_files, valid_files, Sample};
+use crate::doc::{Cfg, CFGS};
+use crate::richdoc::{self, Layout};
+use crate::rng::{fnv, Rng};
+use crate::run::{Run, Tier};
+use crate::sup::{monitored, CaseFn, CaseOut};
+use crate::tape::Src;
+use crate::walk::{walk, WalkStats};
+use crate::with_file;
+use serde_json::{json, Value};
+use std::collections::BTreeMap;
+
+pub struct Seeds { pub files: Vec<Sample>, pub rich: Vec<Vec<u8>>, tokens: Vec<Vec<(usize, usize, u8)>> }
+
+fn scan_tokens(b: &[u8]) -> Vec<(usize, usize, u8)> {
+    // (offset, len, kind) kind 0 = integer, 1 = name
+    let mut out = Vec::new();
+    let mut i = 0;
+    while i < b.len() && out.len() < 4000 {
+        let c = b[i];
+        if c.is_ascii_digit() && (i == 0 || !b[i - 1].is_ascii_alphanumeric()) {
+            let mut j = i; while j < b.len() && b[j].is_ascii_digit() { j += 1; }
+            if j < b.len() && !b[j].is_ascii_alphabetic() && b[j] != b'.' { out.push((i, j - i, 0)); }
+            i = j.max(i + 1);
+        } else if c == b'/' {
+            let mut j = i + 1; while j < b.len() && (b[j].is_ascii_alphanumeric() || b[j] == b'-') { j += 1; }
+            if j - i > 2 { out.push((i, j - i, 1)); }
+            i = j.max(i + 1);
+        } else if c == b's' && b[i..].starts_with(b"stream") {
+            // skip stream bodies
+            match b[i..].windows(9).position(|w| w == b"endstream") { Some(p) => i += p + 9, None => break }
+        } else { i += 1; }
+    }
+    out
+}
+
+pub fn seeds() -> Seeds {
+    let mut files = valid_files();
+    files.extend(invalid_files());
+    let rich: Vec<Vec<u8>> = [Layout::Classic, Layout::XrefStream, Layout::Incremental].iter().map(|l| richdoc::write(&richdoc::objects(), *l, b"")).collect();
+    let tokens = files.iter().map(|f| scan_tokens(&f.bytes)).collect();
+    Seeds { files, rich, tokens }
+}
+
+const NAME_POOL: [&[u8]; 24] = [b"/Pages", b"/Page", b"/Kids", b"/Count", b"/Parent", b"/Length", b"/Filter", b"/FlateDecode", b"/LZWDecode", b"/DCTDecode", b"/Type0", b"/Font", b"/W", b"/Size", b"/Prev", b"/Root",
+    b"/Index", b"/First", b"/N", b"/ObjStm", b"/XRef", b"/Encrypt", b"/Names", b"/Nums"];
+const INT_POOL: [&[u8]; 14] = [b"0", b"1", b"-1", b"2", b"9", b"255", b"256", b"65535", b"99999", b"2147483647", b"4294967295", b"-2147483648", b"18446744073709551615", b"00000"];
+
+pub struct Case { pub bytes: Vec<u8>, pub password: Vec<u8>, pub cfg: Cfg, pub labels: String, pub deep: bool }
+
+fn byte_mutate(b: &mut Vec<u8>, r: &mut Rng) {
+    let n = 1 + r.below(4);
+    for _ in 0..n {
+        if b.is_empty() { b.push(r.next_u64() as u8); continue; }
+        let k = r.below(b.len() as u64) as usize;
+        match r.below(7) {
+            0 => b[k] ^= 1 << r.below(8),
+            1 => b[k] = r.next_u64() as u8,
+            2 => { b.insert(k, r.next_u64() as u8); }
+            3 => { b.remove(k); }
+            4 => { let l = (r.below(64) as usize).min(b.len() - k); let chunk: Vec<u8> = b[k..k + l].to_vec(); let at = r.below(b.len() as u64) as usize; for (i, c) in chunk.into_iter().enumerate() { b.insert(at + i, c); } }
+            5 => { b.truncate(k); }
+            _ => { let l = (r.below(200) as usize).min(b.len() - k); b.drain(k..k + l); }
+        }
+    }
+}
+
+pub fn grammar_soup(r: &mut Rng) -> Vec<u8> {
+    let toks: [&[u8]; 40] = [b"<<", b">>", b"[", b"]", b"/Type", b"/Pages", b"/Kids", b"/Count", b"1 0 R", b"2 0 R", b"3 0 R", b"0", b"1", b"-1", b"2147483647", b"0.5", b"(str)", b"<00ff>", b"true", b"null",
+        b"obj", b"endobj", b"stream\n", b"endstream", b"xref", b"trailer", b"startxref", b"/Length", b"/Root", b"/Size", b"/Filter", b"/FlateDecode", b"R", b"%c\n", b"/W", b"[1 1 1]", b"/Index", b"/Prev", b"(", b")"];
+    let mut out = b"%PDF-1.5\n".to_vec();
+    let nobj = 1 + r.below(6);
+    let mut offs = Vec::new();
+    for n in 1..=nobj {
+        offs.push(out.len());
+        out.extend_from_slice(format!("{} 0 obj\n", n).as_bytes());
+        match r.below(3) {
+            0 => out.extend_from_slice(b"<< /Type /Catalog /Pages 2 0 R >>"),
+            1 => out.extend_from_slice(b"<< /Type /Pages /Kids [3 0 R] /Count 1 >>"),
+            _ => { for _ in 0..r.below(30) { out.extend_from_slice(toks[r.below(40) as usize]); out.push(b' '); } }
+        }
+        out.extend_from_slice(b"\nendobj\n");
+    }
+    let x = out.len();
+    out.extend_from_slice(format!("xref\n0 {}\n0000000000 65535 f \n", nobj + 1).as_bytes());
+    for o in &offs { out.extend_from_slice(format!("{:010} 00000 n \n", o).as_bytes()); }
+    out.extend_from_slice(b"trailer\n<< /Root 1 0 R /Size ");
+    out.extend_from_slice(format!("{}", nobj + 1).as_bytes());
+    for _ in 0..r.below(4) { out.push(b' '); out.extend_from_slice(toks[r.below(40) as usize]); }
+    out.extend_from_slice(format!(" >>\nstartxref\n{}\n%%EOF", x).as_bytes());
+    out
+}
+
+/// Case `idx` (deterministic in (seed, idx)).
+pub fn make_case(sd: &Seeds, seed: u64, idx: u64) -> Case {
+    let mut r = Rng::derive(seed, 1, idx);
+    let cfg = CFGS[((idx / 10) % 4) as usize];
+    let pick_file = |r: &mut Rng| -> usize {
+        // prefer small files; the large ones now and then
+        loop { let k = r.below(sd.files.len() as u64) as usize; if sd.files[k].bytes.len() < 80_000 || r.below(40) == 0 { return k; } }
+    };
+    match idx % 10 {
+        0 => {
+            let k = pick_file(&mut r);
+            let mut b = sd.files[k].bytes.clone();
+            byte_mutate(&mut b, &mut r);
+            Case { bytes: b, password: sd.files[k].password.clone(), cfg, labels: format!("bytes:{}", sd.files[k].name), deep: false }
+        }
+        1 | 2 => {
+            // same-length token replacement keeps the cross-reference offsets valid
+            let k = pick_file(&mut r);
+            let mut b = sd.files[k].bytes.clone();
+            let toks = &sd.tokens[k];
+            let mut lab = Vec::new();
+            for _ in 0..1 + r.below(3) {
+                if toks.is_empty() { break; }
+                let (off, len, kind) = toks[r.below(toks.len() as u64) as usize];
+                let pool: &[&[u8]] = if kind == 0 { &INT_POOL } else { &NAME_POOL };
+                let cands: Vec<&&[u8]> = pool.iter().filter(|p| p.len() <= len).collect();
+                if cands.is_empty() { continue; }
+                let rep: &[u8] = *cands[r.below(cands.len() as u64) as usize];
+                for i in 0..len { b[off + i] = if i < rep.len() { rep[i] } else { b' ' }; }
+                lab.push(String::from_utf8_lossy(rep).to_string());
+            }
+            Case { bytes: b, password: sd.files[k].password.clone(), cfg, labels: format!("token:{}:{}", sd.files[k].name, lab.join(",")), deep: false }
+        }
+        3..=7 => {
+            let mut s = Src::fresh(Rng::derive(seed, 101, idx));
+            let mut objs = richdoc::objects();
+            let n = 1 + s.draw(3);
+            let mut labs = Vec::new();
+            for _ in 0..n { labs.push(richdoc::mutate(&mut objs, &mut s)); }
+            let layout = [Layout::Classic, Layout::XrefStream, Layout::Incremental][s.draw(3) as usize];
+            let prefix: Vec<u8> = if s.draw(5) == 0 { vec![b'x'; s.draw(600) as usize] } else { vec![] };
+            Case { bytes: richdoc::write(&objs, layout, &prefix), password: vec![], cfg, labels: format!("struct:{:?}:{}", layout, labs.join(";")), deep: idx % 50 == 3 }
+        }
+        8 => Case { bytes: grammar_soup(&mut r), password: vec![], cfg, labels: "grammar".into(), deep: false },
+        _ => {
+            let k = r.below(sd.rich.len() as u64) as usize;
+            let mut b = sd.rich[k].clone();
+            byte_mutate(&mut b, &mut r);
+            Case { bytes: b, password: vec![], cfg, labels: format!("bytes:rich{}", k), deep: false }
+        }
+    }
+}
+
+/// Open + walk one input in the worker under the resource monitors.
+pub fn exec_case(prop: &'static str, idx: u64, c: &Case, out: &mut CaseOut, counters: &mut BTreeMap<String, u64>) {
+    let n = c.bytes.len() as u64;
+    let generic_label = c.labels.split(':').next().unwrap_or("").to_string();
+    monitored(idx, n, out, counters, &generic_label, prop, |out, counters| {
+        let mut w = WalkStats::new();
+        crate::walk::ENTRY.store(crate::walk::entry_id("load"), std::sync::atomic::Ordering::Relaxed);
+        let loaded = crate::panicmon::guard(|| with_file!(c.bytes.clone(), c.cfg, &c.password, |f| match f { Ok(f) => { walk(&f, &mut w, c.deep); true } Err(_) => false }));
+        crate::walk::ENTRY.store(0, std::sync::atomic::Ordering::Relaxed);
+        match loaded {
+            Ok(true) => *counters.entry("loaded".into()).or_insert(0) += 1,
+            Ok(false) => *counters.entry("load_error".into()).or_insert(0) += 1,
+            Err(p) => out.violations.push((format!("{}|{}", prop, p.signature()), format!("load panicked: {} [{}]", p.describe(), c.labels), json!({"labels": c.labels}))),
+        }
+        for (entry, p) in &w.panics {
+            out.violations.push((format!("{}|{}", prop, p.signature()), format!("{} panicked: {} [{}]", entry, p.describe(), c.labels), json!({"labels": c.labels, "entry": entry, "cfg": c.cfg.name()})));
+        }
+        for (k, (ok, err, pa)) in &w.calls {
+            *counters.entry(format!("ok:{}", k)).or_insert(0) += ok;
+            *counters.entry(format!("err:{}", k)).or_insert(0) += err;
+            if *pa > 0 { *counters.entry(format!("panic:{}", k)).or_insert(0) += pa; }
+        }
+        *counters.entry(format!("kind:{}", generic_label)).or_insert(0) += 1;
+        if w.n_calls > 30 { out.nontrivial = Some(fnv(&c.bytes)); }
+    });
+    if idx < 3 { out.sample = Some(json!({"idx": idx, "labels": c.labels, "bytes": c.bytes.len(), "cfg": c.cfg.name()})); }
+}
+
+pub fn worker(_tier: Tier, seed: u64) -> CaseFn<'static> {
+    let sd = seeds();
+    Box::new(move |idx, out, counters| {
+        let c = make_case(&sd, seed, idx);
+        exec_case("C01", idx, &c, out, counters);
+    })
+}
+
+pub fn describe_case(sd: &Seeds, seed: u64, idx: u64) -> (String, Value) {
+    let c = make_case(sd, seed, idx);
+    let generic = c.labels.split(';').next().unwrap_or("").to_string();
+    let path = format!("{}/replay/C01-input-{}.pdf", crate::run::verif_root(), idx);
+    let _ = std::fs::create_dir_all(format!("{}/replay", crate::run::verif_root()));
+    let _ = std::fs::write(&path, &c.bytes);
+    (generic, json!({"labels": c.labels, "cfg": c.cfg.name(), "input_file": path, "seed": seed, "idx": idx}))
+}
+
+pub fn run(run: &Run) {
+    run.rule("case i (deterministic in seed,i): byte-level mutation of a corpus file (valid, invalid, password) or of the generated rich document; same-length token replacement (boundary integers, structural names) keeping xref offsets valid; 1-3 structural mutations of the rich document's object table (re-pointed references, boundary numbers, swapped names/objects, dropped entries) re-written with valid xref in 3 layouts; grammar token soup with valid trailer. Each case: load + full walker (pages, inherited attributes, resources, fonts/widths/ToUnicode/embedded data, images, forms, content ops, name/number trees, outlines, fields, typed gets and resolve of objects by number, functions, colour spaces, scan) in one of 4 configurations inside a child process under panic monitor, allocation budget 64MiB+64x(input+decoded), CPU budget 5s+20us x (input+decoded). distinct_nontrivial = distinct inputs on which > 30 library calls were made");
+    run.assume("resource budgets are two orders of magnitude above what the valid corpus needs (max observed per-case CPU and peak allocation are reported in counters)");
+    let sd = seeds();
+    let n = run.n(60_000, 3_000_000);
+    let seed = run.seed;
+    crate::sup::run_cases(run, "C01", n, 100, &|idx| describe_case(&sd, seed, idx));
+}
